@@ -97,3 +97,23 @@ def select(tier, seed):
 
 def describe(item):
     return "failure `%s` along call chain %s" % (item[0], "/".join(ORDERS[item[1]]))
+
+
+def assert_position(src, level):
+    """(line, column), 1-based, of the `assert` statement that fails at `level` (1..7: inside g<level> / class K<level>; 0: module
+    level, after `print "depth0"`), read off the rendered source text - independent of what the compiler wrote into the instruction"""
+    lines = src.split("\n")
+    start = None
+    for i, l in enumerate(lines):
+        t = l.strip()
+        if level == 0 and t == 'print "depth0"':
+            start = i
+        elif level > 0 and (t.startswith("g%d = fn(" % level) or t.startswith("class K%d " % level)):
+            start = i
+    if start is None:
+        return None
+    for i in range(start, len(lines)):
+        c = lines[i].find("assert ")
+        if c >= 0 and lines[i].strip().startswith("assert "):
+            return (i + 1, c + 1)
+    return None
